@@ -19,14 +19,14 @@ CHECKS = {
         ref="DESIGN.md §3 C02",
     ),
     "C03": dict(
-        technique="static analysis: post-dominance of the Hermitian symmetrisation in the clang AST of the D(q) producers (statement-list position relative to the OpenMP/serial twin and the single return), algebra of make_Hermitian's loop body by source-to-sympy translation, symbolic loop-bound extraction (every pair j >= i, diagonal included), open-term rules for the Python reference and the masses setter; orientation typing of the reciprocal point-group operations; coverage of the derivative kernel's symmetrisation nest; def-use rule that float change-of-basis matrices are rounded before integer conversion; flow-sensitive provenance of the masses each cell receives in the masses setter; after its own rules, the other properties' rules on the files this property is anchored in (anchor-scoped delegation, instances cached per tree digest)",
+        technique="static analysis: post-dominance of the Hermitian symmetrisation in the clang AST of the D(q) producers (statement-list position relative to the OpenMP/serial twin and the single return), algebra of make_Hermitian's loop body by source-to-sympy translation, symbolic loop-bound extraction (every pair j >= i, diagonal included), open-term rules for the Python reference and the masses setter; orientation typing of the reciprocal point-group operations; coverage of the derivative kernel's symmetrisation nest; def-use rule that float change-of-basis matrices are rounded before integer conversion; flow-sensitive provenance of the masses each cell receives in the masses setter; after its own rules, the other properties' rules on the files this property is anchored in (anchor-scoped delegation, instances cached per tree digest); path enumeration of the compiled Wang driver (through delegation from C08)",
         level="other",
         text="Decides only the Hermiticity and mass-propagation clauses: because the property quantifies over arbitrary force constants, 'every producer path ends in (M + M^H)/2' is a necessary condition visible in code shape, and make_Hermitian's body is shown algebraically to compute a'=(a+conj b)/2, b'=conj a' over all pairs j>=i. D(-q)=conj D(q), G-periodicity, point-group invariance, the acoustic sum rule and the s/t scaling are statements about values and are not decided.",
         note="Trusted: clang-14 JSON AST, sympy. The dipole-dipole term added after the symmetrisation on the Gonze-Lee path is Hermitian analytically, not by a code step; not judged.",
         ref="DESIGN.md §3 C03",
     ),
     "C04": dict(
-        technique="static analysis on Python ast: index-variance (frame) typing of the lattice linear algebra — every axis is Cartesian, a lattice basis index or a lattice component index; .T swaps, inv swaps and flips, a contraction needs the same lattice with opposite variance — seeded from the repository's own conventions (x.cell, x.scaled_positions, supercell and primitive matrices); plus rejection-path rules (atom-count test before the maps are stored; species test on full symbols gathered through the mapping table); integrality typing of the trimming gate; rounding-before-integer-conversion def-use rule; symbolic evaluation of the trimming-frame expression on 3x3 symbolic entries with numpy broadcasting semantics (diag(frame).T = S); broadcast-alignment rule (per-row reductions combined with columns); after its own rules, the other properties' rules on the files this property is anchored in (anchor-scoped delegation, instances cached per tree digest); symbolic corner points of the surrounding frame",
+        technique="static analysis on Python ast: index-variance (frame) typing of the lattice linear algebra — every axis is Cartesian, a lattice basis index or a lattice component index; .T swaps, inv swaps and flips, a contraction needs the same lattice with opposite variance — seeded from the repository's own conventions (x.cell, x.scaled_positions, supercell and primitive matrices); plus rejection-path rules (atom-count test before the maps are stored; species test on full symbols gathered through the mapping table); integrality typing of the trimming gate; rounding-before-integer-conversion def-use rule; symbolic evaluation of the trimming-frame expression on 3x3 symbolic entries with numpy broadcasting semantics (diag(frame).T = S); broadcast-alignment rule (per-row reductions combined with columns); after its own rules, the other properties' rules on the files this property is anchored in (anchor-scoped delegation, instances cached per tree digest); symbolic corner points of the surrounding frame; index-domain typing of the stored supercell/unit-cell maps (unit cell, surrounding cell, supercell, first images; composition and block-length rules)",
         level="other",
         text="Decides the clause 'the supercell has lattice S^T L' and its siblings for the primitive cell and the shortest-vector basis change for every matrix at once: a transposed or wrong-lattice product is a type error unless the matrix is diagonal, which is exactly why tests on diagonal/symmetric matrices cannot see it. Also decides that cells which cannot be tiled are rejected before index maps are stored. Does not decide duplicate-free tiling or the group property of the translation permutations (runtime values). Also decides the trimming gate's integrality, that float change-of-basis matrices are rounded (not truncated) before they become integer, and that the old-style trimming frame divides row i of the supercell matrix by the frame length of row i.",
         note="Trusted: CPython ast; the seed types of cell/positions/matrices (documented conventions of PhonopyAtoms and the Supercell/Primitive docstrings). Unknown operands type to unknown and are never reported.",
@@ -40,14 +40,14 @@ CHECKS = {
         ref="DESIGN.md §3 C06",
     ),
     "C08": dict(
-        technique="static analysis: element-wise symbolic execution of the NAC kernels' loop nests over the clang-14 JSON AST (literal-bound loops unrolled, size-bound loops run once for a generic index, array cells as patterns, callees inlined) giving closed sympy forms of a generic array element; homogeneity tests by substitution (direction -> s direction, Born -> s Born); who-writes and subscript-dependence rules; open-term comparison of the Python fallback with the same closed form; after its own rules, the other properties' rules on the files this property is anchored in (anchor-scoped delegation, instances cached per tree digest)",
+        technique="static analysis: element-wise symbolic execution of the NAC kernels' loop nests over the clang-14 JSON AST (literal-bound loops unrolled, size-bound loops run once for a generic index, array cells as patterns, callees inlined) giving closed sympy forms of a generic array element; homogeneity tests by substitution (direction -> s direction, Born -> s Born); who-writes and subscript-dependence rules; open-term comparison of the Python fallback with the same closed form; after its own rules, the other properties' rules on the files this property is anchored in (anchor-scoped delegation, instances cached per tree digest); path enumeration of the Wang driver over the clang AST (conditions split into atoms, conditional operators split, pointer locals followed): which vector the term is built from in each class of |q| and direction",
         level="other",
         text="Decides the zone-centre clauses for both methods: the term added along a direction n is nac_factor (n.Z_j)_a (n.Z_j')_b / (n.eps.n) (Wang: kernel and Python fallback, per image 1/N; Gonze-Lee: the G+q=0 term n_a n_b/(n.eps.n) dressed by multiply_borns), it is homogeneous of degree 0 in n -- hence independent of the length of n --, every correction term is bilinear in the Born charges -- hence zero charges switch it off --, the Wang addend is the same for all supercell images of a primitive atom, which is what makes it cancel at non-zero commensurate q, and the Gonze-Lee short-range force constants are built from dynamical matrices, dipole terms and an inverse transform that all use the same representatives of the commensurate points. Does not decide the cancellation of the Gonze-Lee reciprocal sum at commensurate points (a lattice-sum identity realised by a run-time G list), its stated precision, or the mass weighting / eigenvalues.",
         note="Trusted: clang-14 JSON AST, sympy. Assumption printed in the evidence: dd_q0 comes from the same Born dressing. The zone-centre switch tolerance is compared across languages under C13 (R13e).",
         ref="DESIGN.md §3 C08",
     ),
     "C09": dict(
-        technique="static analysis on Python ast: structural proof obligations on the weight construction (open-term comparison), typestate over guard-correlated paths for the coupled symmetry flags, sibling keyword agreement for stored/iterated meshes, axis/weight abstract interpretation of nine mesh consumers (every sum/dot/einsum/loop accumulation over the irreducible q axis carries the weight; result homogeneous of degree 0 in the weights), pairwise precondition rule for the rotations (mesh numbers and half-shift flags per lattice-equivalent axis pair), guard-before-construction rule for consumers that need an unreduced mesh; finite-domain evaluation of the half-shift flag function; multiset typing of the weight construction; orientation typing of rotations; symbolic execution of the lattice-vector-equivalence function for a generic rotation with Boolean equivalence over sign-insensitive atoms; after its own rules, the other properties' rules on the files this property is anchored in (anchor-scoped delegation, instances cached per tree digest); global-normalisation rule for weighted means; binary-search rule",
+        technique="static analysis on Python ast: structural proof obligations on the weight construction (open-term comparison), typestate over guard-correlated paths for the coupled symmetry flags, sibling keyword agreement for stored/iterated meshes, axis/weight abstract interpretation of nine mesh consumers (every sum/dot/einsum/loop accumulation over the irreducible q axis carries the weight; result homogeneous of degree 0 in the weights), pairwise precondition rule for the rotations (mesh numbers and half-shift flags per lattice-equivalent axis pair), guard-before-construction rule for consumers that need an unreduced mesh; finite-domain evaluation of the half-shift flag function; multiset typing of the weight construction; orientation typing of rotations; symbolic execution of the lattice-vector-equivalence function for a generic rotation with Boolean equivalence over sign-insensitive atoms; after its own rules, the other properties' rules on the files this property is anchored in (anchor-scoped delegation, instances cached per tree digest); global-normalisation rule for weighted means; binary-search rule; degree typing of the compiled consumers' C expressions in the q-point multiplicities (every store that reaches an output has degree 1)",
         level="other",
         text="Decides the clauses that make 'reduced sampling == full sampling' true by construction: weights are one count per grid point selected by the values of the same table; time reversal is never used where mesh symmetry is off (all constructor paths, all callers); both mesh flavours receive the same rotations and the symmetry library their documented orientation; every consumer (loop, dot, einsum or sum form) weights each q exactly once and divides by the weight sum; rotations are only used when mesh numbers and half-shifts agree on every pair of axes a rotation exchanges; eigenvector-dependent consumers refuse reduced meshes. Does not decide that spglib's mapping is a correct orbit decomposition.",
         note="Trusted: CPython ast, spglib's documented argument conventions.",
@@ -61,7 +61,7 @@ CHECKS = {
         ref="DESIGN.md §3 C10",
     ),
     "C11": dict(
-        technique="static analysis: clang-JSON-to-sympy and ast-to-sympy translation of the 38+38 tetrahedron closed forms (equality as rational functions, sum rules by differentiation/cancellation), exhaustive evaluation of the literal C tetrahedra tables, abstract interpretation of the sorting network over the finite domain of 24 orderings, dispatch-table and case-split comparison, symbolic integration of the smearing kernels; element-wise symbolic execution of the table-copy and helper loops; provenance rule for stored iterator weights; role-based extraction (parameters by position, locals by what they receive); closed form of the compiled tetrahedron-DOS driver with uninterpreted library calls, structural rule on its irreducible-point tables; no-truncation rule for the smearing kernel; after its own rules, the other properties' rules on the files this property is anchored in (anchor-scoped delegation, instances cached per tree digest); grid-index stride rule; kind inference for the rank of the central vertex",
+        technique="static analysis: clang-JSON-to-sympy and ast-to-sympy translation of the 38+38 tetrahedron closed forms (equality as rational functions, sum rules by differentiation/cancellation), exhaustive evaluation of the literal C tetrahedra tables, abstract interpretation of the sorting network over the finite domain of 24 orderings, dispatch-table and case-split comparison, symbolic integration of the smearing kernels; element-wise symbolic execution of the table-copy and helper loops; provenance rule for stored iterator weights; role-based extraction (parameters by position, locals by what they receive); closed form of the compiled tetrahedron-DOS driver with uninterpreted library calls, structural rule on its irreducible-point tables; no-truncation rule for the smearing kernel; after its own rules, the other properties' rules on the files this property is anchored in (anchor-scoped delegation, instances cached per tree digest); grid-index stride rule; kind inference for the rank of the central vertex; the main-diagonal choice decided on the function itself: closed forms of the compared lengths and evaluation over all orderings of four lengths (finite ordering domain)",
         level="other",
         text="Decides: C==Python for every closed form and for the (i,ci) dispatch and omega case split; sum_c I=1, sum_c J=1 (additivity of projected DOS), dn/dw=g, continuity and full normalisation of n; geometric validity of the 4x24 literal tetrahedra; correctness of sort_omegas on all strict orderings; unit integral of both smearing kernels; that every DOS path weights by multiplicity and divides by the grid size once. Does not decide non-negativity / [0,1] bounds (inequalities) or the run-time generated Python table.",
         note="Trusted: clang-14 JSON AST (parsed with -DTHM_EPSILON=1e-10 as CMake does), CPython ast, sympy cancel/diff/integrate as normaliser, engine/symalg.py translators. Generic branch of _f (distinct vertex frequencies).",
@@ -82,7 +82,7 @@ CHECKS = {
         ref="DESIGN.md §3 C13",
     ),
     "C14": dict(
-        technique="static analysis on Python ast: guard-correlated alias/retention/overwrite analysis, path-sensitive definite-assignment (worlds of option-guard facts with class flag implications), open-term normal form of every eigenvalue->frequency conversion site, sibling-call keyword agreement across if-arms, who-reads rule for file writers; value-taint rule for the yaml / hdf5 writers of eigenvectors (copy only: indexing, transposition, reshape, real / imaginary part); after its own rules, the other properties' rules on the files this property is anchored in (anchor-scoped delegation, instances cached per tree digest); zone-centre window rule; same-name forwarding rule; sibling-class keyword rule",
+        technique="static analysis on Python ast: guard-correlated alias/retention/overwrite analysis, path-sensitive definite-assignment (worlds of option-guard facts with class flag implications), open-term normal form of every eigenvalue->frequency conversion site, sibling-call keyword agreement across if-arms, who-reads rule for file writers; value-taint rule for the yaml / hdf5 writers of eigenvectors (copy only: indexing, transposition, reshape, real / imaginary part); after its own rules, the other properties' rules on the files this property is anchored in (anchor-scoped delegation, instances cached per tree digest); zone-centre window rule; same-name forwarding rule; sibling-class keyword rule; the batch solver behind the q-point drivers is an extra anchor for delegation (memory-order rules of the kernel arguments)",
         level="other",
         text="Decides, for every combination of the boolean output options (a product space no test enumerates), that no retained result view is overwritten through an alias, that no result variable is unbound on an option path, that all 11 access paths convert eigenvalues to frequencies by the same expression, that stored and iterated meshes (and every other if-selected sibling construction) are configured with the same keyword values, and that writers read only what the API returns. Does not decide that LAPACK eigenvectors diagonalise the matrix or band-connection permutations.",
         note="Trusted: CPython ast, sympy as normaliser. Assumes for-loops run at least once, == dispatch chains are exhaustive, and 'if b: self._a = True' in __init__ is an invariant.",
@@ -110,14 +110,14 @@ CHECKS = {
         ref="DESIGN.md §3 C17",
     ),
     "C18": dict(
-        technique="static analysis on Python ast: extraction of the seven tables of the settings pipeline (argparse dests, read_options forwarding with guard kind and value encoding, parse_conf handlers, set_parameter names, set_settings consumers, Settings keys/setters, settings reads in the scripts) and set-algebra / agreement rules between adjacent tables, including evaluation of every parser default against the guard under which the dest is forwarded; silent-default evaluation of all add_argument calls; sibling-construction rule for the command defaults handed to the configuration parser; after its own rules, the other properties' rules on the files this property is anchored in (anchor-scoped delegation, instances cached per tree digest); path evaluation of the primitive-matrix precedence; same-name forwarding",
+        technique="static analysis on Python ast: extraction of the seven tables of the settings pipeline (argparse dests, read_options forwarding with guard kind and value encoding, parse_conf handlers, set_parameter names, set_settings consumers, Settings keys/setters, settings reads in the scripts) and set-algebra / agreement rules between adjacent tables, including evaluation of every parser default against the guard under which the dest is forwarded; silent-default evaluation of all add_argument calls; sibling-construction rule for the command defaults handed to the configuration parser; after its own rules, the other properties' rules on the files this property is anchored in (anchor-scoped delegation, instances cached per tree digest); path evaluation of the primitive-matrix precedence; same-name forwarding; in-place self-aliasing rule (an element taken without a copy is not the operand of an in-place update that runs over it; built-in positive example)",
         level="other",
         text="Decides, exhaustively over all ~107 options and ~111 tags, the clause 'a setting has the same effect as tag or as option' as far as it is a property of the tables: every option reaches a handler, every parameter reaches an existing setter, every settings read in the scripts exists, the encoding stored for a key is the one its handler parses (including the polarity of negative flags), numeric options are forwarded under 'is not None' so that 0 means 0 on both routes, and an option that was not typed forwards nothing, so a configuration-file tag is not overridden by a parser default. Does not decide that output files equal library results. Also decides that the command defaults (phonopy-load: NAC on, symmetrised force constants) are in force whether or not a configuration file is read.",
         note="Trusted: CPython ast. Options handled directly by the scripts and namespace-only probes are frozen lists with one reason each. Documentation tags are reported as notes only.",
         ref="DESIGN.md §3 C18",
     ),
     "C19": dict(
-        technique="static analysis: source-to-sympy translation of the displacement prefactors with symbolic unit constants (identity with hbar/(2 m w)(1+2n) and k_B T/(m w^2)), equality of the Bose-Einstein expressions across modules, structural rules for the sqrt(2) / real-imaginary bookkeeping of conjugate q-point pairs, interprocedural frame typing of the sampler's position/phase set-up; interprocedural count of seeded random generators per run; open-term comparison of the sampler and thermal-displacement assembly sites in each function's own environment; symbolic evaluation of the CIF normalisation on 3x3 symbols; broadcast-alignment rule; after its own rules, the other properties' rules on the files this property is anchored in (anchor-scoped delegation, instances cached per tree digest); memoised-derived-state rule (with a built-in positive example)",
+        technique="static analysis: source-to-sympy translation of the displacement prefactors with symbolic unit constants (identity with hbar/(2 m w)(1+2n) and k_B T/(m w^2)), equality of the Bose-Einstein expressions across modules, structural rules for the sqrt(2) / real-imaginary bookkeeping of conjugate q-point pairs, interprocedural frame typing of the sampler's position/phase set-up; interprocedural count of seeded random generators per run; open-term comparison of the sampler and thermal-displacement assembly sites in each function's own environment; symbolic evaluation of the CIF normalisation on 3x3 symbols; broadcast-alignment rule; after its own rules, the other properties' rules on the files this property is anchored in (anchor-scoped delegation, instances cached per tree digest); memoised-derived-state rule (with a built-in positive example); symbolic evaluation of the spectral reassembly D = V diag(w) V^H on complex symbols (loop, batched matmul and einsum spellings)",
         level="other",
         text="Decides the prefactor and distribution clauses for all temperatures/frequencies at once: both modules' mean-square amplitude per mode is algebraically the harmonic canonical one (quantum and classical), the two Bose-Einstein factors are the same function, q = -q+G points carry no sqrt(2) and conjugate pairs do with Re - Im, the partition is computed once, and supercell positions enter the phases as primitive-cell components contracted with reduced q-points. Does not decide covariance equality of the sampler, positive semi-definiteness or the CIF transform.",
         note="Trusted: CPython ast, sympy, units.py constants as symbols. One known finding: populations are switched off for T <= 1 K in ThermalMotion.",
